@@ -1,5 +1,6 @@
 import GormModel.Drv.Util
 import GormModel.Model.DryRun
+import GormModel.Model.DryRunRecv
 open Lean
 namespace Gorm.Drv
 
@@ -12,12 +13,48 @@ def outJ (o : ExecOut) : Json :=
   Json.mkObj [("built", strListJ (whats o.built)), ("sent", strListJ (o.sent.map (·.what))),
     ("txs", strListJ (o.txs.map (·.what))), ("keeps", Json.bool o.keepsSQL)]
 
+def symJ : StSym → Json
+  | .recv => "recv"
+  | .empty => "empty"
+  | .lost => "lost"
+
+def handleJ (h : DryHandle) : Json :=
+  Json.mkObj [("stmt", symJ h.stmt), ("fresh", Json.bool (h.clone > 0)), ("dryRun", Json.bool h.dryRun),
+    ("skipDefaultTx", Json.bool h.skipDefaultTx), ("ok", Json.bool h.ok)]
+
+def flagOf : String → Option SessFlag
+  | "DryRun" => some .dryRun
+  | "PrepareStmt" => some .prepareStmt
+  | "NewDB" => some .newDB
+  | "Initialized" => some .initialized
+  | "SkipHooks" => some .skipHooks
+  | "SkipDefaultTransaction" => some .skipDefaultTransaction
+  | "DisableNestedTransaction" => some .disableNestedTransaction
+  | "AllowGlobalUpdate" => some .allowGlobalUpdate
+  | "FullSaveAssociations" => some .fullSaveAssociations
+  | "PropagateUnscoped" => some .propagateUnscoped
+  | "QueryFields" => some .queryFields
+  | "Context" => some .hasContext
+  | "Logger" => some .hasLogger
+  | "NowFunc" => some .hasNowFunc
+  | "CreateBatchSize" => some .batchSizePos
+  | _ => none
+
+def poolOf : String → Option PoolKind
+  | "plain" => some .plain
+  | "prepDB" => some .prepDB
+  | "prepTX" => some .prepTX
+  | _ => none
+
 end HC19
 
 /-- ["c19.exec", pipeline, dryRun, skipDefaultTx, err, skipHooks, hasSchema, [false atoms], fuel]
       -> {built, sent, txs, keeps} of `execute` over the regenerated table, all other atoms true
     ["c19.finisher", pipeline, batched, explicitTx, dryRun, skipDefaultTx, fuel]
       -> {exposed: [...], txs: [...]} (finisher level)
+    ["c19.session", [Session field names that are set]] -> {stmt, fresh, dryRun, skipDefaultTx, ok} of `sessionHandle`
+    ["c19.tosql"] -> the same for `toSQLHandle` (the handle DB.ToSQL passes to its callback)
+    ["c19.wire", pool kind, sql, [values]] -> {prepared, text, args} | null  (what the driver is handed)
     ["c19.flags"] -> {beginSkipsDryRun}  (which `DB.Begin` the tree has: regenerated fact, Gen/DryRunRepair.lean)
     The model is instantiated with the tree's own flag `Gen.beginSkipsDryRun`. -/
 def handleC19 (op : String) (args : Array Json) : Option Json := do
@@ -45,6 +82,18 @@ def handleC19 (op : String) (args : Array Json) : Option Json := do
     let fuel ← jNat? (arg args 6)
     some (Json.mkObj [("exposed", strListJ (HC19.whats (exposed Gen.beginSkipsDryRun Gen.dryFns f st (fun _ => true) fuel))),
       ("txs", strListJ ((finisherTx Gen.beginSkipsDryRun Gen.dryFns f st (fun _ => true) fuel).map (·.what)))])
+  | "c19.session" =>
+    let fs ← (← jArr? (arg args 1)).toList.mapM (fun j => do HC19.flagOf (← jStr? j))
+    some (HC19.handleJ (sessionHandle (SessFlags.ofList fs)))
+  | "c19.tosql" => some (HC19.handleJ toSQLHandle)
+  | "c19.wire" =>
+    let k ← HC19.poolOf (← jStr? (arg args 1))
+    let sql ← jStr? (arg args 2)
+    let vars ← (← jArr? (arg args 3)).toList.mapM jStr?
+    some (match wire k sql vars with
+      | some w => Json.mkObj [("prepared", match w.prepared with | some p => Json.str p | none => Json.null),
+          ("text", Json.str w.text), ("args", strListJ w.args)]
+      | none => Json.null)
   | "c19.flags" => some (Json.mkObj [("beginSkipsDryRun", Json.bool Gen.beginSkipsDryRun)])
   | _ => none
 
